@@ -118,7 +118,8 @@ class C19(Prop):
                 if rng.random() < 0.5:
                     lines.append(f"shadow mapk {rng.choice(['5', '3', '1'])} 5 5")     # a second preset instance alive
                 for _ in range(rng.randint(1, 3)):
-                    lines.append("run 0")          # 0 = a raw (non-dict) input; tiers are rendered 1, 2, 3
+                    # 0 = a raw (non-dict) input; tiers are rendered 1, 2, 3; `prev` feeds the last released dict back in
+                    lines.append(rng.choice(["run 0", "run 0", "run prev"]))
                     if rng.random() < 0.4:
                         lines.append(rng.choice(["stats", "remove MAPKK", "remove MAPKKK", "setgate MAPK reject", "setgate MAPKKK freject",
                                                  "setgate MAPKK none", "setamp MAPKK 1/2", "set halt 0", "set max 1/2",
@@ -143,7 +144,7 @@ class C19(Prop):
                     elif r < 0.16 and not any(" nest " in l for l in lines):
                         lines.append(f"prun {rng.choice([0, 1, 2, 7])}")     # the fork entry point in between
                     elif r < 0.45:
-                        lines.append(f"run {rng.choice([0, 1, 1, 2, 7, 11])}")
+                        lines.append(f"run {rng.choice([0, 1, 1, 2, 7, 11, 'prev', 'prev'])}")
                     elif r < 0.7 and names:
                         nm = rng.choice(names)
                         lines.append(f"remove {nm}")
@@ -194,6 +195,10 @@ class C19(Prop):
         hist += [{"lines": [f"mapk {h} 1000 2 3 4", "run 0", f"setgate {nm} {g}", "run 0", "stats"],
                   "note": "a gate installed on a tier of the live preset"}
                  for h in "01" for nm in ("MAPKKK", "MAPKK", "MAPK") for g in ("reject", "freject", "raise", "none", "pass")]
+        # the preset's own output fed back in, also into a preset some tiers of which were removed (a tier-3 dict at tier 3's gate)
+        hist += [{"lines": [f"mapk {h} 1000 2 3 4", "run 0"] + rm + ["run prev", "run prev", "stats"],
+                  "note": "the preset's output fed back in"}
+                 for h in "01" for rm in ([], ["remove MAPKKK"], ["remove MAPKKK", "remove MAPKK"], ["remove MAPKK"], ["remove MAPK"])]
         mapk = [{"lines": [f"mapk {h} {mx} {a} {a} {a}", "run 0", "run 0", "stats"], "note": "MAPK preset"}
                 for h in "01" for mx in ("100", "1000", "4") for a in ("10", "1", "0", "1/2")]
         mapk += [{"lines": [f"mapk {h} 1000 2 3 4", "run 0", "shadow mapk 5 5 5", "run 0", "stats"],
@@ -413,7 +418,9 @@ class C19(Prop):
         cshown = []    # results the on_cascade_complete observer was shown during the current run
         cmode = ["none"]
 
-        def do_run(x):
+        last_out = [0]     # final output of the last successful outer run() that returned: `run prev` feeds it back in
+
+        def do_run(x, outer=False):
             # one call of run(): with an on_cascade_complete observer installed the line shows the result the observer was
             # shown (exactly once, and it must be the very record that is returned); `craise` when the observer raised
             del cshown[:]
@@ -423,6 +430,8 @@ class C19(Prop):
                 if cmode[0] == "raise" and len(cshown) == 1:
                     return render(cshown[0]) + " cshown craise"
                 raise
+            if outer and r.success:
+                last_out[0] = r.final_output
             if cmode[0] == "none":
                 return render(r)
             if len(cshown) != 1 or render(cshown[0]) != render(r):
@@ -452,6 +461,7 @@ class C19(Prop):
                     log.clear()
                     cur.clear()
                     made[0] = 0
+                    last_out[0] = 0
                     cmode[0] = "none"
                     obs.append("ok")
                 elif t[0] == "mapk" and len(t) == 6:
@@ -469,6 +479,7 @@ class C19(Prop):
                     log.clear()
                     cur.clear()
                     made[0] = 3
+                    last_out[0] = 0
                     cmode[0] = "none"
                     for k, st_ in enumerate(added if added else list(getattr(casc, "_stages"))):
                         d = {"cp": "none" if st_.checkpoint is None else f"mapk{k + 1}", "pr": f"mapk{k + 1}", "eh": "none",
@@ -617,7 +628,7 @@ class C19(Prop):
                     del seen[:]
                     del inner[:]
                     depth[0] = 0
-                    outer = do_run(int(t[1]))
+                    outer = do_run(last_out[0] if t[1] == "prev" else int(t[1]), outer=True)
                     obs.append(" | ".join([outer] + inner))
                 else:
                     obs.append("bad-op")
@@ -634,17 +645,18 @@ class C19(Prop):
         beh = []          # (cp, pr, eh, req, amp, creation id, name) of the stages currently in the pipeline
         made = 0
         observer = "none"
+        prev = 0          # what `run prev` feeds in: the final output of the last successful run that returned
         for idx, (line, o) in enumerate(zip(case["lines"], obs)):
             t = line.split()
             if t[0] == "mapk" and len(t) == 6:
-                halt, maxa, made, observer = t[1] == "1", Fraction(t[2]), 3, "none"
+                halt, maxa, made, observer, prev = t[1] == "1", Fraction(t[2]), 3, "none", 0
                 beh = [("none", "mapk1", "none", True, Fraction(t[3]), 0, "MAPKKK"),
                        ("mapk2", "mapk2", "none", True, Fraction(t[4]), 1, "MAPKK"),
                        ("mapk3", "mapk3", "none", True, Fraction(t[5]), 2, "MAPK")]
             if t[0] == "observer" and len(t) == 2:
                 observer = t[1]
             if t[0] == "cfg":
-                halt, maxa, beh, made, observer = t[1] == "1", Fraction(t[2]), [], 0, "none"
+                halt, maxa, beh, made, observer, prev = t[1] == "1", Fraction(t[2]), [], 0, "none", 0
             elif t[0] == "stage" and len(t) in (6, 7):
                 beh.append((t[1], t[2], t[3], t[4] == "1", Fraction(t[5]), made, t[6] if len(t) == 7 else f"s{made}"))
                 made += 1
@@ -676,7 +688,7 @@ class C19(Prop):
                   if part.startswith("raise:"):
                       out.append(Violation("call_returns", "a result (nested run)", part, idx))
                       continue
-                  x_in = int(t[1]) if part_i == 0 else 3
+                  x_in = (prev if t[1] == "prev" else int(t[1])) if part_i == 0 else 3
                   o_ = part
                   f = o_.split(" ")
                   if any(x.startswith("MISMATCH") for x in f[9:]):
@@ -742,6 +754,8 @@ class C19(Prop):
                           out.append(Violation("success_with_failing_gate", "no success", o, idx))
                   elif fin != "none":
                       out.append(Violation("no_output_unless_success", "none", fin, idx))
+                  if part_i == 0 and success and "craise" not in f[9:] and fin.startswith("some:") and fin[5:].isdigit():
+                      prev = int(fin[5:])
                   # 6. amplification = clamped product of completed stages' DECLARED factors (recovered stages count 1):
                   # the running gain, held at max_amplification from the start (also for a maximum below 1) and after
                   # every completed stage
